@@ -456,20 +456,32 @@ mod color_only {
     fn stub_format(_args: std::fmt::Arguments<'_>) -> String {
         String::new()
     }
-    fn stub_paint_buffered<'p>(_p: &mut Painter<'p>)
+    // monitor: the buffered removed / added lines of the previous hunk are painted ...
+    fn stub_paint_buffered<'p>(p: &mut Painter<'p>)
     where
         'p: 'p,
     {
+        unsafe {
+            let c = p.config as *const Config as *mut Config;
+            addr_of_mut!((*c).max_line_length).write(1);
+        }
     }
     fn stub_set_highlighter<'p>(_p: &mut Painter<'p>)
     where
         'p: 'p,
     {
     }
-    fn stub_emit<'p>(_p: &mut Painter<'p>) -> std::io::Result<()>
+    // ... and written out (only counts if painting was requested first)
+    fn stub_emit<'p>(p: &mut Painter<'p>) -> std::io::Result<()>
     where
         'p: 'p,
     {
+        unsafe {
+            let c = p.config as *const Config as *mut Config;
+            if std::ptr::addr_of!((*c).max_line_length).read() == 1 {
+                addr_of_mut!((*c).max_syntax_length).write(1);
+            }
+        }
         Ok(())
     }
 
@@ -500,6 +512,8 @@ mod color_only {
             addr_of_mut!((*cp).hunk_header_style_include_code_fragment).write(HunkHeaderIncludeCodeFragment::Yes);
             addr_of_mut!((*cp).decorations_width).write(crate::cli::Width::Variable);
             addr_of_mut!((*cp).null_style).write(plain);
+            addr_of_mut!((*cp).max_line_length).write(0);
+            addr_of_mut!((*cp).max_syntax_length).write(0);
         }
         let config: &Config = unsafe { &*cp };
         let mut sink: Vec<u8> = Vec::with_capacity(8);
@@ -517,6 +531,8 @@ mod color_only {
         let parsed = ParsedHunkHeader { code_fragment: String::new(), line_numbers_and_hunk_lengths: vec![(1, 1), (1, 1)] };
         let r = sm.emit_hunk_header_line(&parsed, "@@ -1 +1 @@", "@@ -1 +1 @@");
         assert!(matches!(r, Ok(true)), "hunk header handled");
+        let (painted, emitted) = unsafe { (std::ptr::addr_of!((*cp).max_line_length).read(), std::ptr::addr_of!((*cp).max_syntax_length).read()) };
+        assert!(painted == 1 && emitted == 1, "C01: whatever the hunk-header style, the lines buffered from the previous hunk are painted and written out before the next hunk starts");
         let mut newlines = 0usize;
         let mut i = 0;
         while i < 4 {
